@@ -154,6 +154,7 @@ fn real_main() {
                 "C15" => c15::generate(seed, tier),
                 "C03" => poolgen::gen_c03(seed, tier),
                 "C04" => poolgen::gen_c04(seed, tier),
+                "C06" => poolgen::gen_c06(seed, tier),
                 _ => {
                     eprintln!("unknown property {}", id);
                     std::process::exit(2);
